@@ -229,7 +229,22 @@ def effect_paths(stmts, is_event, max_paths=20000):
         return False
 
     def atom_events(e):
-        return [n for n in hir.nodes(e, into_closures=False) if is_event(n)]
+        # evaluation order: a call's receiver and arguments are evaluated before the call itself (post-order)
+        out_ = []
+
+        def walk(n):
+            if isinstance(n, dict):
+                if n.get('k') == 'Closure':
+                    return
+                for ch in hir.children(n):
+                    walk(ch)
+                if is_event(n):
+                    out_.append(n)
+            elif isinstance(n, list):
+                for x in n:
+                    walk(x)
+        walk(e)
+        return out_
 
     def seq(stmts, conds, events, last=None):
         if len(out) > max_paths:
